@@ -266,5 +266,23 @@ CHECKS["C11"] = {
           "witness and differential check, not by a general theorem.",
 }
 
+CHECKS["C16"] = {
+  "text": "Theorems for all byte strings about the index/slice/arithmetic model of the data-dependent panic sites: is_boundary panics "
+          "exactly outside a stated precondition that every non-empty regex match satisfies; the tokenizer's index arithmetic stays in "
+          "range; apply's unchecked slice panics exactly when the recorded offsets do not address a str slice and never on a "
+          "consistent plan; the line_after slice is safe on valid UTF-8 lines; the case-insensitive replacement is total on ASCII; "
+          "lock age underflows iff the timestamp is in the future; the exit-status table of main.rs stays within {0,1,2,3,130}. "
+          "Every potentially panicking site of the non-test code (clippy inventory, regenerated each run) must be classified "
+          "(theorem / infallible / known finding / unreachable / unclassified-counted); panic/no-panic of the real functions is "
+          "compared with the model in-process; a CLI stream of hostile trees, names, terms, option sets, stale plans and workspace "
+          "state checks status, stderr and termination, matching any crash to a listed finding by panic location and input class.",
+  "design_ref": "DESIGN.md section 4, C16",
+  "technique": "Lean 4 proof (totality with explicit Panic outcomes) + clippy site inventory x committed classification + differential panic/no-panic correspondence + CLI oracle",
+  "note": TB + "38 inventoried sites are reviewed-as-unclassified (counted in the evidence); allocation failure, stack depth, panics inside "
+          "dependencies and quadratic cost on very long lines are outside the theorems (the oracle still observes them; an invocation "
+          "that exhausts 40 s / 4 GiB is retried on a cut-down copy to separate cost from non-termination); Unicode lower-casing is "
+          "abstract in the model; clap's own exits (2 on usage errors) are observed, not modelled.",
+}
+
 _W = "check built and passing before the latest repo fix commits; temporarily withdrawn while its Lean model is updated to the repaired code"
 PENDING.update({"C08": _W, "C12": _W})
